@@ -120,6 +120,9 @@ def replay(rec, ctx):
                 res = _call(IB, E, ad, c, f2[0], f2[1], f2[2], f2[3], fv=fv2)
                 got = [[float(np.asarray(res[z])[k, 1]) for z in sorted(res)] for k in range(3)]
                 scale2 = SC[1]
+            elif c["rep"] == "function1d_int":
+                res = _call(IB, E, ad, c, f1[0], f1[1], f1[2], f1[3], fv=np.arange(3))
+                got = [_vec(res, k) for k in range(3)]
             elif c["rep"] == "ndarray":
                 got = [_vec(_call(IB, E, ad, c, ne, te, nd, nel), k) for k in range(3)]
             elif c["rep"] == "function1d":
